@@ -127,6 +127,31 @@ def runEKF {n m p : Nat} (pinv : Mat α p p → Mat α p p) (steps : List (Step 
     Post α n :=
   steps.foldl (fun st s => ekf pinv s st) pr
 
+/-! ### how a call obtains `Q` and `R`, and what a failing call leaves behind
+
+`Q = Q if Q is not None else self.Q`, `R = R if R is not None else self.R`: each covariance is resolved **on its own** —
+the value passed for this call if there is one, otherwise the value stored in the filter object (`none` = the
+`NotImplementedError` of the property when nothing is stored either). -/
+
+def resolve {β : Type} (passed stored : Option β) : Option β :=
+  match passed with
+  | some v => some v
+  | none => stored
+
+/-- one `EKF.__call__` on an object holding `stQ`, `stR`, with per-call `pQ`, `pR` (`none` = the call raises) -/
+def ekfCall {n m p : Nat} (pinv : Mat α p p → Mat α p p) (stQ : Option (Mat α n n)) (stR : Option (Mat α p p))
+    (sys : Sys α n m p) (u : Vec α m) (y : Vec α p) (pQ : Option (Mat α n n)) (pR : Option (Mat α p p))
+    (pr : Post α n) : Option (Post α n) :=
+  match resolve pQ stQ, resolve pR stR with
+  | some Q, some R => some (ekf pinv ⟨sys, u, y, Q, R⟩ pr)
+  | _, _ => none
+
+/-- a history in which some calls raise (`none`, e.g. the user's system function raised): the caller catches the
+exception and continues with the estimate it had — a failing call is no call -/
+def runEKFopt {n m p : Nat} (pinv : Mat α p p → Mat α p p) (calls : List (Option (Step α n m p))) (pr : Post α n) :
+    Post α n :=
+  calls.foldl (fun st c => match c with | some s => ekf pinv s st | none => st) pr
+
 /-! ## UKF  (`UKF.forward`, `sigma_weight_points`, `compute_cov`) -/
 
 /-- the `2n+1` sigma points / values attached to them, in the order of
@@ -196,6 +221,14 @@ call; `None` is `3 − n`) besides its own system, `u`, `y`, `Q`, `R` -/
 def runUKF {n m p : Nat} (pinv : Mat α p p → Mat α p p) (msqrt : Mat α n n → Mat α n n)
     (calls : List (α × Step α n m p)) (pr : Post α n) : Post α n :=
   calls.foldl (fun st c => ukf pinv msqrt c.1 c.2 st) pr
+
+def ukfCall {n m p : Nat} (pinv : Mat α p p → Mat α p p) (msqrt : Mat α n n → Mat α n n) (kk : α)
+    (stQ : Option (Mat α n n)) (stR : Option (Mat α p p))
+    (sys : Sys α n m p) (u : Vec α m) (y : Vec α p) (pQ : Option (Mat α n n)) (pR : Option (Mat α p p))
+    (pr : Post α n) : Option (Post α n) :=
+  match resolve pQ stQ, resolve pR stR with
+  | some Q, some R => some (ukf pinv msqrt kk ⟨sys, u, y, Q, R⟩ pr)
+  | _, _ => none
 
 /-! ## PF  (`PF.forward`, `relative_likelihood`, `resample_particles`, `compute_cov`)
 
